@@ -33,6 +33,7 @@ def run(ck):
     ck.rule("C13.R2", "buffer is cleared before formatting starts", floor=1)
     ck.rule("C13.R3", "single-line formatters end each Ok path with exactly one newline write", floor=3)
     ck.rule("C13.R4", "writer combinators route as their definition denotes", floor=9)
+    ck.rule("C13.R7", "every formatter takes the spans it names from the event's own scope (explicit parent / explicit root honoured), never from the thread's current span directly", floor=4)
     ck.rule("C13.R6", "formatter/builder conversions keep every option: a rebuilt field comes from the same-named field", floor=60)
     ck.rule("C13.R5", "span lifecycle events: one on_event under the matching FmtSpan flag", floor=4)
     r1_r2(ck, F)
@@ -41,11 +42,12 @@ def run(ck):
     r5(ck, F)
     from rulekit.query import builder_carry_over
     builder_carry_over(ck, F, "C13.R6", ("tracing_subscriber::fmt::",))
+    r7(ck, F)
 
 
-def r1_r2(ck, F):
+def r1_r2(ck, F, r1id="C13.R1", r2id="C13.R2"):
     b = F.body(FS + "on_event::{closure#0}")
-    if not ck.anchor("C13.R1", "fmt::Subscriber::on_event closure", b):
+    if not ck.anchor(r1id, "fmt::Subscriber::on_event closure", b):
         return
     paths = [p for p in PathEval(b).run() if p.end == "return"]
     nfmt = 0
@@ -91,16 +93,16 @@ def r1_r2(ck, F):
             if not any(x[1].get("trait") == IOW and x[1].get("method") == "write_all" for x in after):
                 problems.append("a writer is requested on a path that writes nothing to it")
         if problems:
-            ck.bad("C13.R1", "on_event: " + problems[0].split(" (")[0], where(b.raw["sp"]), "; ".join(problems) + " [%s]" % key, fn=b.path)
+            ck.bad(r1id, "on_event: " + problems[0].split(" (")[0], where(b.raw["sp"]), "; ".join(problems) + " [%s]" % key, fn=b.path)
         else:
-            ck.ok("C13.R1", key, fn=b.path)
+            ck.ok(r1id, key, fn=b.path)
     if nfmt == 0:
-        ck.bad("C13.R1", "on_event: no formatted path", where(b.raw["sp"]), "no path on which format_event succeeded was found")
+        ck.bad(r1id, "on_event: no formatted path", where(b.raw["sp"]), "no path on which format_event succeeded was found")
     # R2
     fmt = [(bb, t) for bb, t in b.calls() if t["callee"].get("trait") == FE and t["callee"].get("method") == "format_event"]
     clears = [bb for bb, t in b.calls() if t["callee"].get("path") == "alloc::string::String::clear"]
     if len(fmt) != 1:
-        ck.bad("C13.R2", "one format_event call", where(b.raw["sp"]), "%d format_event call sites" % len(fmt))
+        ck.bad(r2id, "one format_event call", where(b.raw["sp"]), "%d format_event call sites" % len(fmt))
         return
     fbb, ft = fmt[0]
     before = [c for c in clears if b.dominates(c, fbb) and c != fbb]
@@ -114,9 +116,9 @@ def r1_r2(ck, F):
             ok = not any(b.term(x)["k"] in ("resume", "return") for x in ua | ra)
             how = "every exit after format_event (incl. unwinding) passes String::clear"
     if ok:
-        ck.ok("C13.R2", "buffer empty when formatting starts", detail=how, fn=b.path)
+        ck.ok(r2id, "buffer empty when formatting starts", detail=how, fn=b.path)
     else:
-        ck.bad("C13.R2", "buffer empty when formatting starts", where(ft["sp"]),
+        ck.bad(r2id, "buffer empty when formatting starts", where(ft["sp"]),
                "String::clear runs only after a record was written normally: if format_event unwinds (a Debug/Display impl panics and the caller "
                "catches it) the partial record stays in the thread-local buffer and is prepended to the next event's record", fn=b.path)
 
@@ -301,3 +303,39 @@ def r5(ck, F):
             ck.ok("C13.R5", "%s emits its lifecycle event once, iff %s" % (m, flag), fn=b.path)
         else:
             ck.bad("C13.R5", "%s emits its lifecycle event once, iff %s" % (m, flag), where(b.raw["sp"]), why, fn=b.path)
+
+
+def r7(ck, F):
+    """Which spans are "in scope" for a record is a property of the event: its explicit parent, the current span if it is
+    contextual, nothing if it is an explicit root (span lifecycle records name the span itself as explicit parent).
+    FmtContext::event_scope / parent_span (Context::event_span) implement exactly that three-way choice; a formatter that
+    asks for the thread's current span, or re-derives the choice from Event::parent() alone, gets roots and explicit parents
+    wrong. Sibling rule over the four FormatEvent impls of `Format<_, T>`."""
+    EVENT_AWARE = ("event_scope", "parent_span", "event_span")
+    n = 0
+    for i in F.impls_of("tracing_subscriber::fmt::format::FormatEvent"):
+        if not i["self_ty"].startswith("tracing_subscriber::fmt::format::Format<"):
+            continue
+        m = i["methods"].get("format_event")
+        b = F.body(m) if m else None
+        kind = i["self_ty"].split("<", 1)[1].split(",")[0].rsplit("::", 1)[-1]
+        if not ck.anchor("C13.R7", "format_event for Format<%s>" % kind, b):
+            continue
+        n += 1
+        aware, naive = [], []
+        for x in [b] + F.closures_of(b):
+            for bb, t in x.calls():
+                p = t["callee"].get("path") or ""
+                last = p.rsplit("::", 1)[-1]
+                if ("FmtContext" in p or "subscribe::context::Context" in p) and last in EVENT_AWARE:
+                    aware.append(last)
+                elif ("FmtContext" in p or "subscribe::context::Context" in p) and last in ("lookup_current", "current_span"):
+                    naive.append("%s at %s" % (last, where(t["sp"])))
+                elif p.startswith("tracing_core::event::Event") and last in ("parent", "is_root", "is_contextual"):
+                    naive.append("Event::%s at %s" % (last, where(t["sp"])))
+        key = "Format<%s>::format_event resolves the record's spans through the event-aware lookup" % kind
+        if aware and not naive:
+            ck.ok("C13.R7", key, fn=b.path, detail=sorted(set(aware)))
+        else:
+            ck.bad("C13.R7", key, where(b.raw["sp"]), "uses %s%s: span lifecycle records and events with an explicit parent or an explicit root would name the wrong spans"
+                   % ("; ".join(naive) or "no span lookup", "" if aware else " and none of event_scope/parent_span"), fn=b.path)
